@@ -10,4 +10,4 @@ for _p in sorted(glob.glob(os.path.join(ROOT, "props", "C*.json"))):
 NOT_APPLICABLE = {}
 
 # commits in /repo that add build-tag-guarded hooks
-HOOK_COMMITS = ["3da214b"]
+HOOK_COMMITS = ["3da214b", "e6e5bde"]
